@@ -196,7 +196,7 @@ package server
 //@   ensures [C03:answered-only-requester] forall c :: c != req.Conn ==> pktWrites[c] == old(pktWrites[c])
 
 //@      // ---- Allocate (C03, C04, C06, C19)
-//@ spec func mgrReady(m *allocation.Manager) bool = m.log != nil && m.allocations != nil && m.allocatePacketConn != nil && m.allocateListener != nil && (forall i :: 0 <= i && i < len(m.reservations) ==> m.reservations[i] != nil)
+//@ spec func mgrReady(m *allocation.Manager) bool = m.log != nil && m.allocations != nil && m.allocatePacketConn != nil && m.allocateListener != nil && allocsNonNil(m) && (forall i :: 0 <= i && i < len(m.reservations) ==> m.reservations[i] != nil)
 //@ spec func isRelayedAttr(s stun.Setter, addr net.Addr) bool = typeis(s, *proto.RelayedAddress) && sameSlice(s.(*proto.RelayedAddress).IP, ipOf(addr)) && s.(*proto.RelayedAddress).Port == portOf(addr)
 //@ spec func isMappedAttr(s stun.Setter, addr net.Addr) bool = typeis(s, *stun.XORMappedAddress) && sameSlice(s.(*stun.XORMappedAddress).IP, ipOf(addr)) && s.(*stun.XORMappedAddress).Port == portOf(addr)
 //@ spec func isLifetimeAttr(s stun.Setter, d int) bool = typeis(s, *proto.Lifetime) && int(s.(*proto.Lifetime).Duration) == d
